@@ -1,8 +1,6 @@
 package optimizer
 
 import (
-	"reflect"
-
 	. "github.com/antonmedv/expr/ast"
 )
 
@@ -13,10 +11,11 @@ func (*inRange) Exit(node *Node) {
 	switch n := (*node).(type) {
 	case *BinaryNode:
 		if n.Operator == "in" || n.Operator == "not in" {
-			if t := n.Left.Type(); t != nil && t.Kind() != reflect.Int {
+			if t := n.Left.Type(); t != nil && t != integerType {
 				// The comparison form is equivalent to membership in an
 				// integer range only for an int on the left: 2.5 in 1..3
-				// is false, a string on the left is simply not a member.
+				// is false, a string or a named integer type on the left
+				// is simply not a member.
 				return
 			}
 			if rng, ok := n.Right.(*BinaryNode); ok && rng.Operator == ".." {
